@@ -19,10 +19,22 @@
                   rotated list is dropped (Dedup = TRUE); before it both were searched (Dedup = FALSE) [hook snap(agg).rotated]
      QCheck       for the entries taken from the unrotated list the search decides whether the segment is (still)
                   unrotated (IsSegKeyUnrotated in GetSSRsFromQSR)                          [hook search.unrotated]
-     QSearch      every listed entry is searched.  An entry that QCheck found unrotated is read from the unrotated
-                  info; if the segment has left it in between the read finds nothing, and - since the "fix:" commit
-                  (Recheck = TRUE) - the search then reads it through the rotated metadata; before, the segment was
-                  silently skipped (Recheck = FALSE).  An entry QCheck found rotated is read through the rotated metadata.
+     QPlan        the per-segment search requests are built.  An entry that QCheck found unrotated is planned from the
+                  unrotated info; if the segment has left it in between the read finds nothing, and - since the "fix:"
+                  commit (Recheck = TRUE) - it is then planned through the rotated metadata; before, the segment was
+                  silently skipped (Recheck = FALSE).  An entry QCheck found rotated is planned through the rotated
+                  metadata.  The plan fixes the blocks (events) that will be searched.        [hook search.planned]
+     QOpenCheck   the column readers of a planned segment decide AGAIN whether the segment is unrotated
+                  (IsSegKeyUnrotated in initNewMultiColumnReader)                          [hook read.unrotated.checked]
+     QOpenGet     ... and then fetch its block table from the unrotated info (GetBlockSearchInfoForKey).  If the segment
+                  has left the unrotated info between the two, the pinned code failed to open the readers and treated
+                  the segment as matching nothing (ReaderFallback = FALSE); since the "fix:" commit the readers fall
+                  back to the rotated metadata (ReaderFallback = TRUE).
+     QFetchCheck  record queries only: the matched records' columns are read by a second set of readers, which again
+                  first ask whether the segment is unrotated (readUserDefinedColForRRCs)   [hook fetch.unrotated.checked]
+     QFetchGet    ... and then fetch the block summaries from the unrotated info (GetBlockSummaryForKey); a segment that
+                  left in between made the column unreadable - the records came back without that column
+                  (ReaderFallback = FALSE) - now the rotated metadata is used (ReaderFallback = TRUE).
 
    The order "RotMeta before RotRemove" means a segment is never in neither list (no loss) but is briefly in both.  *)
 EXTENDS Naturals, Sequences, FiniteSets, TLC
@@ -31,19 +43,25 @@ CONSTANTS MaxEvents,   \* total events that may be ingested
           MaxFlush,    \* block flushes (explicit ones; a rotation's implicit flush not counted)
           MaxRot,      \* rotations
           Dedup,       \* BOOLEAN: does the query drop unrotated entries that are also listed as rotated
-          Recheck      \* BOOLEAN: does an empty unrotated read of a meanwhile-rotated segment fall back to the rotated metadata
+          Recheck,     \* BOOLEAN: does an empty unrotated read of a meanwhile-rotated segment fall back to the rotated metadata
+          ReaderFallback \* BOOLEAN: do column readers whose unrotated lookup fails (segment rotated after their own check) use the rotated metadata
 
 VARIABLES nextId,      \* next event id (events are 1..nextId-1)
           wip,         \* set of event ids in the in-memory block
           segs,        \* sequence of segments: [ev |-> set of searchable event ids, inU |-> BOOLEAN, inR |-> BOOLEAN]
           wpc,         \* writer pc: "idle" | "fvis" | "rmeta" | "rrem"
           nflush, nrot,
-          qpc,         \* "none" | "snapU" | "snapR" | "checked" | "done"
+          qpc,         \* "none" | "snapU" | "snapR" | "checked" | "planned" | "ochecked" | "opened" | "fchecked" | "done"
           snapU, snapR,\* sets of segment indexes
           asU,         \* entries of the unrotated list that QCheck found still unrotated
           visAtStart,  \* events searchable when the query took its first snapshot
-          result       \* sequence (bag) of event ids returned
-vars == <<nextId, wip, segs, wpc, nflush, nrot, qpc, snapU, snapR, asU, visAtStart, result>>
+          plan,        \* sequence of [seg |-> segment index, ev |-> events of the blocks the request covers]
+          openU,       \* planned segments whose readers found them unrotated (QOpenCheck) / (QFetchCheck)
+          opened,      \* planned segments whose readers could be opened (the others are searched as "matches nothing")
+          result,      \* sequence (bag) of event ids returned
+          damaged      \* ids returned without (some of) their columns
+vars == <<nextId, wip, segs, wpc, nflush, nrot, qpc, snapU, snapR, asU, visAtStart, plan, openU, opened, result, damaged>>
+qvars == <<snapU, snapR, asU, visAtStart, plan, openU, opened, result, damaged>>
 
 Cur == Len(segs)
 NewSeg == [ev |-> {}, inU |-> FALSE, inR |-> FALSE]
@@ -51,41 +69,43 @@ Searchable == UNION {segs[i].ev : i \in {j \in 1..Len(segs) : segs[j].inU \/ seg
 
 Init == /\ nextId = 1 /\ wip = {} /\ segs = <<NewSeg>> /\ wpc = "idle" /\ nflush = 0 /\ nrot = 0
         /\ qpc = "none" /\ snapU = {} /\ snapR = {} /\ asU = {} /\ visAtStart = {} /\ result = <<>>
+        /\ plan = <<>> /\ openU = {} /\ opened = {} /\ damaged = {}
 
 Ingest(n) == /\ wpc = "idle" /\ nextId + n - 1 <= MaxEvents
              /\ wip' = wip \cup (nextId..(nextId + n - 1)) /\ nextId' = nextId + n
-             /\ UNCHANGED <<segs, wpc, nflush, nrot, qpc, snapU, snapR, asU, visAtStart, result>>
+             /\ UNCHANGED <<segs, wpc, nflush, nrot, qpc, qvars>>
 
 MakeVisible == segs' = [segs EXCEPT ![Cur] = [@ EXCEPT !.ev = @ \cup wip, !.inU = TRUE]]
 
 FlushVis == /\ wpc = "idle" /\ wip # {} /\ nflush < MaxFlush
             /\ MakeVisible /\ wip' = {} /\ wpc' = "fvis" /\ nflush' = nflush + 1
-            /\ UNCHANGED <<nextId, nrot, qpc, snapU, snapR, asU, visAtStart, result>>
+            /\ UNCHANGED <<nextId, nrot, qpc, qvars>>
 FlushEnd == /\ wpc = "fvis" /\ wpc' = "idle"
-            /\ UNCHANGED <<nextId, wip, segs, nflush, nrot, qpc, snapU, snapR, asU, visAtStart, result>>
+            /\ UNCHANGED <<nextId, wip, segs, nflush, nrot, qpc, qvars>>
 
 \* rotation of the current segment (needs at least one block, possibly the one it flushes itself)
 RotMeta == /\ wpc = "idle" /\ nrot < MaxRot /\ (segs[Cur].ev # {} \/ wip # {})
            /\ segs' = [segs EXCEPT ![Cur] = [ev |-> @.ev \cup wip, inU |-> TRUE, inR |-> TRUE]]
            /\ wip' = {} /\ wpc' = "rmeta" /\ nrot' = nrot + 1
-           /\ UNCHANGED <<nextId, nflush, qpc, snapU, snapR, asU, visAtStart, result>>
+           /\ UNCHANGED <<nextId, nflush, qpc, qvars>>
 RotRemove == /\ wpc = "rmeta"
              /\ segs' = [segs EXCEPT ![Cur] = [@ EXCEPT !.inU = FALSE]]
              /\ wpc' = "rrem"
-             /\ UNCHANGED <<nextId, wip, nflush, nrot, qpc, snapU, snapR, asU, visAtStart, result>>
+             /\ UNCHANGED <<nextId, wip, nflush, nrot, qpc, qvars>>
 RotEnd == /\ wpc = "rrem" /\ segs' = Append(segs, NewSeg) /\ wpc' = "idle"
-          /\ UNCHANGED <<nextId, wip, nflush, nrot, qpc, snapU, snapR, asU, visAtStart, result>>
+          /\ UNCHANGED <<nextId, wip, nflush, nrot, qpc, qvars>>
 
 QSnapU == /\ qpc = "none"
           /\ snapU' = {i \in 1..Len(segs) : segs[i].inU}
           /\ visAtStart' = Searchable
           /\ qpc' = "snapU"
-          /\ UNCHANGED <<nextId, wip, segs, wpc, nflush, nrot, snapR, asU, result>>
+          /\ UNCHANGED <<nextId, wip, segs, wpc, nflush, nrot, snapR, asU, plan, openU, opened, result, damaged>>
 QSnapR == /\ qpc = "snapU"
           /\ snapR' = {i \in 1..Len(segs) : segs[i].inR}
           /\ qpc' = "snapR"
-          /\ UNCHANGED <<nextId, wip, segs, wpc, nflush, nrot, snapU, asU, visAtStart, result>>
+          /\ UNCHANGED <<nextId, wip, segs, wpc, nflush, nrot, snapU, asU, visAtStart, plan, openU, opened, result, damaged>>
 
+Range0(sq) == {sq[i] : i \in 1..Len(sq)}
 RECURSIVE Concat(_)
 Concat(ss) == IF ss = <<>> THEN <<>> ELSE Head(ss) \o Concat(Tail(ss))
 SetToSeq(S) == CHOOSE f \in [1..Cardinality(S) -> S] : \A i, j \in 1..Cardinality(S) : i # j => f[i] # f[j]
@@ -93,24 +113,49 @@ UList == IF Dedup THEN snapU \ snapR ELSE snapU
 QCheck == /\ qpc = "snapR"
           /\ asU' = {i \in UList : segs[i].inU}
           /\ qpc' = "checked"
-          /\ UNCHANGED <<nextId, wip, segs, wpc, nflush, nrot, snapU, snapR, visAtStart, result>>
-\* what reading segment i returns now
+          /\ UNCHANGED <<nextId, wip, segs, wpc, nflush, nrot, snapU, snapR, visAtStart, plan, openU, opened, result, damaged>>
+\* the events of segment i's searchable blocks, now
 SegEvents(i) == SetToSeq(segs[i].ev)
-\* an entry of the unrotated list: read as decided by QCheck
-ReadU(i) == IF i \in asU
-            THEN IF segs[i].inU THEN SegEvents(i)                 \* still in the unrotated info
-                 ELSE IF Recheck THEN SegEvents(i) ELSE <<>>      \* left it after the check: empty read (+ fallback)
-            ELSE SegEvents(i)                                     \* found rotated by QCheck: rotated metadata
-QSearch == /\ qpc = "checked"
-           /\ LET us == SetToSeq(UList)
-                  rs == SetToSeq(snapR)
-              IN result' = Concat([k \in 1..Len(us) |-> ReadU(us[k])]) \o Concat([k \in 1..Len(rs) |-> SegEvents(rs[k])])
-           /\ qpc' = "done"
-           /\ UNCHANGED <<nextId, wip, segs, wpc, nflush, nrot, snapU, snapR, asU, visAtStart>>
+Req(i) == <<[seg |-> i, ev |-> SegEvents(i)]>>
+\* an entry of the unrotated list: planned as decided by QCheck
+PlanU(i) == IF i \in asU
+            THEN IF segs[i].inU THEN Req(i)                       \* still in the unrotated info
+                 ELSE IF Recheck THEN Req(i) ELSE <<>>            \* left it after the check: empty read (+ fallback)
+            ELSE Req(i)                                           \* found rotated by QCheck: rotated metadata
+QPlan == /\ qpc = "checked"
+         /\ LET us == SetToSeq(UList)
+                rs == SetToSeq(snapR)
+            IN plan' = Concat([k \in 1..Len(us) |-> PlanU(us[k])]) \o Concat([k \in 1..Len(rs) |-> Req(rs[k])])
+         /\ qpc' = "planned"
+         /\ UNCHANGED <<nextId, wip, segs, wpc, nflush, nrot, snapU, snapR, asU, visAtStart, openU, opened, result, damaged>>
+PlannedSegs == {plan[k].seg : k \in 1..Len(plan)}
+StillU(S) == {i \in S : segs[i].inU}
+\* readers of segment i (which they found unrotated iff i \in chk) can get at its block table
+CanOpen(i, chk) == i \notin chk \/ segs[i].inU \/ ReaderFallback
+QOpenCheck == /\ qpc = "planned"
+              /\ openU' = StillU(PlannedSegs) /\ qpc' = "ochecked"
+              /\ UNCHANGED <<nextId, wip, segs, wpc, nflush, nrot, snapU, snapR, asU, visAtStart, plan, opened, result, damaged>>
+QOpenGet == /\ qpc = "ochecked"
+            /\ opened' = {i \in PlannedSegs : CanOpen(i, openU)} /\ qpc' = "opened"
+            /\ UNCHANGED <<nextId, wip, segs, wpc, nflush, nrot, snapU, snapR, asU, visAtStart, plan, openU, result, damaged>>
+QFetchCheck == /\ qpc = "opened"
+               /\ openU' = StillU(opened) /\ qpc' = "fchecked"
+               /\ UNCHANGED <<nextId, wip, segs, wpc, nflush, nrot, snapU, snapR, asU, visAtStart, plan, opened, result, damaged>>
+\* the two middle steps as one (the harness can park the real query only at the two checks)
+QOpenGetFetchCheck == /\ qpc = "ochecked"
+                      /\ opened' = {i \in PlannedSegs : CanOpen(i, openU)}
+                      /\ openU' = StillU(opened') /\ qpc' = "fchecked"
+                      /\ UNCHANGED <<nextId, wip, segs, wpc, nflush, nrot, snapU, snapR, asU, visAtStart, plan, result, damaged>>
+Found(k) == IF plan[k].seg \in opened THEN plan[k].ev ELSE <<>>
+QFetchGet == /\ qpc = "fchecked"
+             /\ result' = Concat([k \in 1..Len(plan) |-> Found(k)])
+             /\ damaged' = UNION {Range0(plan[k].ev) : k \in {n \in 1..Len(plan) : plan[n].seg \in opened /\ ~CanOpen(plan[n].seg, openU)}}
+             /\ qpc' = "done"
+             /\ UNCHANGED <<nextId, wip, segs, wpc, nflush, nrot, snapU, snapR, asU, visAtStart, plan, openU, opened>>
 
 Next == \/ \E n \in 1..2 : Ingest(n)
         \/ FlushVis \/ FlushEnd \/ RotMeta \/ RotRemove \/ RotEnd
-        \/ QSnapU \/ QSnapR \/ QCheck \/ QSearch
+        \/ QSnapU \/ QSnapR \/ QCheck \/ QPlan \/ QOpenCheck \/ QOpenGet \/ QFetchCheck \/ QFetchGet
 Spec == Init /\ [][Next]_vars
 -----------------------------------------------------------------------------
 Range(s) == {s[i] : i \in 1..Len(s)}
@@ -120,7 +165,9 @@ NoDup == \A i, j \in 1..Len(result) : i # j => result[i] # result[j]
 NoLoss == qpc = "done" => visAtStart \subseteq Range(result)
 \* nothing that was never ingested / never flushed
 NoInvent == Range(result) \subseteq Searchable
+\* every record comes back whole
+NoDamage == damaged = {}
 \* a segment is never in neither list while it has searchable events
 NeverInNeither == \A i \in 1..Len(segs) : segs[i].ev # {} => (segs[i].inU \/ segs[i].inR)
-TypeOK == /\ wpc \in {"idle", "fvis", "rmeta", "rrem"} /\ qpc \in {"none", "snapU", "snapR", "checked", "done"}
+TypeOK == /\ wpc \in {"idle", "fvis", "rmeta", "rrem"} /\ qpc \in {"none", "snapU", "snapR", "checked", "planned", "ochecked", "opened", "fchecked", "done"}
 =============================================================================
